@@ -38,6 +38,24 @@ Proof.
 Qed.
 Print Assumptions C11_source_max_returns.
 
+(* default and Hamming mode (_cal_levenshtein, with rapidfuzz's extract as the vocabulary rf_extract of lib/PySorted.v): exactly the candidates
+   other than the query whose Levenshtein / Hamming distance is at most max_edits, ascending; with max_returns = m the first m of them *)
+Theorem C11_source_lev_row : forall (hamming levenshtein : str -> str -> nat) (seqs : list str) (k : nat) (is_hamming : bool) (i : nat)
+  (cands : list nat) (t : nat * nat * nat),
+  let scorer := if is_hamming then hamming else levenshtein in
+  In t (gen_cal_levenshtein hamming levenshtein seqs k None is_hamming i cands) <->
+  exists j, t = (i, j, scorer (nth i seqs []) (nth j seqs [])) /\ In j cands /\ j <> i /\ scorer (nth i seqs []) (nth j seqs []) <= k.
+Proof. intros. apply gen_cal_levenshtein_spec. Qed.
+Print Assumptions C11_source_lev_row.
+
+Theorem C11_source_lev_max_returns : forall (hamming levenshtein : str -> str -> nat) (seqs : list str) (k : nat) (is_hamming : bool) (i : nat)
+  (cands : list nat) (m : nat),
+  let all := gen_cal_levenshtein hamming levenshtein seqs k None is_hamming i cands in
+  gen_cal_levenshtein hamming levenshtein seqs k (Some m) is_hamming i cands = firstn m all /\
+  StronglySorted (fun a b : nat * nat * nat => snd a <= snd b) all.
+Proof. intros. apply gen_cal_levenshtein_limit. Qed.
+Print Assumptions C11_source_lev_max_returns.
+
 (* non-vacuity: rational distances with Qle_bool are such an order, and the regenerated worker computes *)
 Lemma Qle_bool_total a b : Qle_bool a b = true \/ Qle_bool b a = true.
 Proof. rewrite !Qle_bool_iff. destruct (Qlt_le_dec b a) as [H|H]; [right; apply Qlt_le_weak, H|left; exact H]. Qed.
@@ -50,4 +68,11 @@ Example C11h_ex :
   let seqs := [[67]; [67;65]; [67;65;65]; [67;65;65;65]; [67]]%N in
   gen_cal_custom_dist Qle_bool dist lev seqs 2 None (1 # 1)%Q 1 [4; 3; 2; 1; 0] = [(1, 4, (1 # 2)%Q); (1, 2, (1 # 2)%Q); (1, 0, (1 # 2)%Q); (1, 3, (2 # 2)%Q)]
   /\ gen_cal_custom_dist Qle_bool dist lev seqs 2 (Some 2) (1 # 1)%Q 1 [4; 3; 2; 1; 0] = [(1, 4, (1 # 2)%Q); (1, 2, (1 # 2)%Q)].
+Proof. vm_compute. split; reflexivity. Qed.
+
+Example C11h_ex_lev :
+  let lev := fun a b : str => Nat.max (length a) (length b) - Nat.min (length a) (length b) in
+  let seqs := [[67]; [67;65]; [67;65;65]; [67;65;65;65]; [67]]%N in
+  gen_cal_levenshtein lev lev seqs 1 None false 1 [4; 3; 2; 1; 0] = [(1, 4, 1); (1, 2, 1); (1, 0, 1)]
+  /\ gen_cal_levenshtein lev lev seqs 2 (Some 2) false 1 [4; 3; 2; 1; 0] = [(1, 4, 1); (1, 2, 1)].
 Proof. vm_compute. split; reflexivity. Qed.
